@@ -378,6 +378,10 @@ def strict_interest(wire):
         start = f[APP_PARAM][1] if APP_PARAM in f else (f[ISIG_INFO][1] if ISIG_INFO in f else f[ISIG_VALUE][1])
         out['signed'] = b''.join(c for c in name if T.read_num(c, 0, len(c))[0] != 2) + buf[start:f[ISIG_VALUE][1]]
     dig = [c for c in name if T.read_num(c, 0, len(c))[0] == 2]
+    if len(dig) > 1:
+        # NDN packet format: an Interest name has at most one ParametersSha256DigestComponent (it is the one component the signature
+        # does not cover)
+        raise T.Malformed('more than one ParametersSha256DigestComponent')
     if dig:
         d = dig[-1]
         v = T.read_tlv(d, 0, len(d))
